@@ -436,6 +436,7 @@ type sjw struct {
 	fp       *faultPlan
 	inReplay bool
 	lastP    string
+	err      error // what a failing call returns
 }
 
 func (w *sjw) Send(m *sse.Message) error {
@@ -449,7 +450,7 @@ func (w *sjw) Send(m *sse.Message) error {
 	}
 	w.t.log(jev{"e": "send", "s": w.id, "p": p, "id": m.ID.String(), "idset": m.ID.IsSet(), "ok": !fail})
 	if fail {
-		return errW
+		return w.err
 	}
 	return nil
 }
@@ -463,7 +464,7 @@ func (w *sjw) Flush() error {
 	}
 	w.t.log(jev{"e": "flush", "s": w.id, "ok": !fail})
 	if fail {
-		return errW
+		return w.err
 	}
 	return nil
 }
@@ -576,7 +577,7 @@ func runSteered(idx int, c *steerCase, stats *steerStats) (evs []jev, blocked bo
 		s, sc := s, sc
 		ctx, cancel := context.WithCancel(context.Background())
 		cancels[s] = cancel
-		w := &sjw{t: t, id: s, fp: fp}
+		w := &sjw{t: t, id: s, fp: fp, err: writerErr(int64(idx), len(s)+int(s[len(s)-1]))}
 		t.mu.Lock()
 		t.subs[w] = s
 		t.mu.Unlock()
